@@ -95,7 +95,7 @@ inductive HKind
 deriving DecidableEq, Repr
 
 /-- a caller that runs `PersistMetadata` synchronously before it returns / answers;
-`stamp` = number of snapshots taken when the caller's own state change happened (ghost) -/
+`stamp` = index in `hist` of the state produced by the caller's own change (ghost) -/
 structure Handler where
   kind : HKind
   stamp : Nat
@@ -111,13 +111,12 @@ structure Persist where
   done : Doc                  -- entries read so far; the whole document once `phase ≠ reading`
   phase : Phase
   tmp : Nat                   -- `rand.Int()` of the temporary file name
-  snapIdx : Nat               -- ghost: index of `done` in `taken`
+  since : Nat                 -- ghost: index in `hist` of the live state when the lock was taken
 deriving Repr
 
 structure Ack where
   h : Handler
   doc : Doc
-  idx : Nat
 deriving Repr
 
 inductive StartRes | never | ok | locked | badFile
@@ -244,19 +243,19 @@ def memEffect (fix : Bool) (stamp : Nat) (m : Mem) : MemStep → Option (Mem × 
 
 /-- `New` took the flock; `LoadMetadata` produced `m`; `Start` will persist before `Main` -/
 def boot {β : Type} (s : Sys β) (m : Mem) : Sys β :=
-  { s with alive := true, mem := m, pending := 0, handlers := [⟨.startup, s.taken.length⟩],
+  { s with alive := true, mem := m, pending := 0, handlers := [⟨.startup, s.hist.length⟩],
            persist := none, lastStart := .ok, hist := s.hist ++ [m] }
 
 def pstep {β : Type} (cd : Codec β) (s : Sys β) : PStep → Option (Sys β)
   | .beginNotify =>
     if s.persist.isSome then none
     else if s.pending = 0 then none
-    else some { s with pending := s.pending - 1, persist := some ⟨none, [], .reading, 0, 0⟩ }
+    else some { s with pending := s.pending - 1, persist := some ⟨none, [], .reading, 0, s.hist.length - 1⟩ }
   | .beginHandler i =>
     if s.persist.isSome then none else
     match s.handlers[i]? with
     | none => none
-    | some h => some { s with handlers := s.handlers.eraseIdx i, persist := some ⟨some h, [], .reading, 0, 0⟩ }
+    | some h => some { s with handlers := s.handlers.eraseIdx i, persist := some ⟨some h, [], .reading, 0, s.hist.length - 1⟩ }
   | .read =>
     match s.persist with
     | none => none
@@ -264,7 +263,7 @@ def pstep {β : Type} (cd : Codec β) (s : Sys β) : PStep → Option (Sys β)
       if p.phase ≠ .reading then none else
       match (snap s.mem)[p.done.length]? with
       | some e => some { s with persist := some { p with done := p.done ++ [e] } }
-      | none => some { s with persist := some { p with phase := .snapped, snapIdx := s.taken.length },
+      | none => some { s with persist := some { p with phase := .snapped },
                               taken := s.taken ++ [p.done] }
   | .openTmp r =>
     match s.persist with
@@ -307,7 +306,7 @@ def pstep {β : Type} (cd : Codec β) (s : Sys β) : PStep → Option (Sys β)
       if p.phase ≠ .renamedP then none
       else some { s with persist := none,
                          acks := match p.owner with
-                                 | some h => s.acks ++ [⟨h, p.done, p.snapIdx⟩]
+                                 | some h => s.acks ++ [⟨h, p.done⟩]
                                  | none => s.acks }
 
 /-- One step; `none` = not enabled in this state. -/
@@ -326,7 +325,7 @@ def step {β : Type} (cd : Codec β) (fix : Bool) (s : Sys β) : Step → Option
   | .mem ms =>
     if !s.alive then none
     else if needsLock ms && s.persist.isSome then none
-    else match memEffect fix s.taken.length s.mem ms with
+    else match memEffect fix s.hist.length s.mem ms with
       | none => none
       | some r => some { s with mem := r.1, pending := s.pending + r.2.1, handlers := s.handlers ++ r.2.2,
                                 hist := s.hist ++ [r.1] }
